@@ -166,10 +166,10 @@ def r3_coercions(chk: Check):
     if ok:
         tb = [b for b, l in fl[0].succ if l is True][0]
         reg = g.reachable(tb, avoid=[b for b, l in fl[0].succ if l is False])
-        frac = [n for n in g.live if n.id in reg and n.kind == "test" and "!= 0" in src(n.ast)]
+        frac = [n for n in g.live if n.id in reg and n.kind == "test" and "== 0" in src(n.ast)]
         rets = [n for n in g.live if n.id in reg and n.kind == "stmt" and isinstance(n.ast, ast.Return)]
         rs = [n for n in g.live if n.id in reg and n.kind == "stmt" and isinstance(n.ast, ast.Raise)]
-        ok = len(frac) == 1 and len(rets) == 1 and src(rets[0].ast.value).startswith("int(") and len(rs) == 1 and any(g.dominates(b, rs[0]) for b, l in frac[0].succ if l is True) and "math.modf(value)" in t
+        ok = len(frac) == 1 and len(rets) == 1 and src(rets[0].ast.value).startswith("int(") and len(rs) == 1 and any(g.dominates(b, rs[0]) for b, l in frac[0].succ if l is False) and "math.modf(value)" in t
     chk.require(ok, chk.fkey(f, "integral float -> int"), "IntType: a float with a non-zero fractional part must raise, an integral float must become int(...)", loc)
     ni = [n for n in g.live if n.kind == "test" and src(n.ast) == "isinstance(value, int)"]
     ok = len(ni) == 1 and any(m.kind == "stmt" and isinstance(m.ast, ast.Raise) for b, l in ni[0].succ if l is False for m, _ in b.succ)
@@ -271,7 +271,7 @@ def r4_required_reaches_graph(chk: Check):
         ok = False
         for r_ in rs:
             gs = sorted((src(t.ast), pol) for t, pol in g.guards(r_) if t.kind == "test" and src(t.ast) != "self._validated")
-            if gs == sorted([("value is not None", False), ("argument.required", True), ("argument.generator", False)]):
+            if gs == sorted([("value is None", True), ("argument.required", True), ("argument.generator", False)]):
                 ok = True
         chk.require(ok, chk.fkey(f, "missing required raises"), "a required argument without value (and without generator) must raise", loc)
         chk.require(not any(isinstance(x, (ast.Continue, ast.Break)) for x in ast.walk(loops[0].ast)), chk.fkey(f, "no skipped argument"), "validate skips some arguments", loc)
